@@ -32,12 +32,18 @@ Dispatch(e) == LET k == e.k  a == e.a IN
     \/ e.op = "CtorNV"       /\ CtorNV(k, a.n, a.v)
     \/ e.op = "CtorIL"       /\ CtorIL(k, a.bits)
     \/ e.op = "CtorBlocks"   /\ CtorBlocks(k, a.blocks)
+    \/ e.op = "CtorAlloc"    /\ CtorAlloc(k)
     \/ e.op = "CtorCopy"     /\ CtorCopy(k)
+    \/ e.op = "CtorMove"     /\ CtorMove(k, a.re, e.st.o[Other(k)].bits)
+    \/ e.op = "MoveAssign"   /\ MoveAssign(k, a.re, e.st.o[Other(k)].bits)
+    \/ e.op = "Reserve"      /\ e.res.exc = "none" /\ Reserve(k, a.n, e.res.val[1])
+    \/ e.op = "MaxSize"      /\ e.res.exc = "none" /\ MaxSize(k, e.res.val[1])
+    \/ e.op = "Fill"         /\ Fill2(k, a.i, a.j, a.v)
     \/ e.op = "CtorView"     /\ CtorView(k, a.blocks, a.n)
     \/ e.op = "AssignNV"     /\ AssignNV(k, a.n, a.v)
     \/ e.op = "AssignIL"     /\ AssignIL(k, a.bits)
     \/ e.op = "AssignBlocks" /\ AssignBlocks(k, a.blocks)
-    \/ e.op = "CopyAssign"   /\ CopyAssign(k)
+    \/ e.op = "CopyAssign"   /\ CopyAssign(k, a.self)
     \/ e.op = "Resize"       /\ Resize(k, a.n, a.v)
     \/ e.op = "Resize1"      /\ Resize1(k, a.n)
     \/ e.op = "ResizeView"   /\ ResizeView(k, a.n)
@@ -53,17 +59,17 @@ Dispatch(e) == LET k == e.k  a == e.a IN
     \/ e.op = "Flip"         /\ Flip(k, a.i)
     \/ e.op = "ShlEq"        /\ ShlEq(k, a.p)
     \/ e.op = "ShrEq"        /\ ShrEq(k, a.p)
-    \/ e.op = "AndEq"        /\ AndEq(k)
-    \/ e.op = "OrEq"         /\ OrEq(k)
-    \/ e.op = "XorEq"        /\ XorEq(k)
+    \/ e.op = "AndEq"        /\ AndEq(k, a.self)
+    \/ e.op = "OrEq"         /\ OrEq(k, a.self)
+    \/ e.op = "XorEq"        /\ XorEq(k, a.self)
     \/ e.op = "Not"          /\ Not(k)
-    \/ e.op = "And"          /\ And(k)
-    \/ e.op = "Or"           /\ Or(k)
-    \/ e.op = "Xor"          /\ Xor(k)
+    \/ e.op = "And"          /\ And(k, a.self)
+    \/ e.op = "Or"           /\ Or(k, a.self)
+    \/ e.op = "Xor"          /\ Xor(k, a.self)
     \/ e.op = "Shl"          /\ Shl(k, a.p)
     \/ e.op = "Shr"          /\ Shr(k, a.p)
-    \/ e.op = "Swap"         /\ Swap(k)
-    \/ e.op = "At"           /\ At(k, a.i)
+    \/ e.op = "Swap"         /\ Swap(k, a.how, a.self)
+    \/ e.op = "At"           /\ At(k, a.c, a.i)
     \/ e.op = "Read"         /\ Read(k, a.path, a.i)
     \/ e.op = "RefWrite"     /\ RefWrite(k, a.path, a.i, a.wk, a.v, a.j)
 
